@@ -117,7 +117,7 @@ def run_shard(spec):
         for i in range(spec["count"]):
             files, how = gen_input(rnd, root)
             big = any(re.search(r"(?i)\.?blk[bw]\s+(1777\d\d|6553\d|100000|77777)", t) for _, t in files)
-            case = {"files": files, "handler": rnd.choice(["bare", "graphical", "record"]), "cli": (i % 100 == 0) or bool(big), "root": root,
+            case = {"files": files, "handler": rnd.choice(["bare", "graphical", "record"]), "cli": (i % 100 == 0) or (bool(big) and i % 2 == 0), "root": root,
                     "wctl": rnd.choice(["everything", "everything", "default", "nothing", "ids-off", "ids-off"]), "wseed": rnd.randrange(1 << 30)}
             vs, info = run_one(case, cnt)
             res["violations"].extend(vs)
@@ -135,6 +135,29 @@ def run_shard(spec):
                 res["distinct"].append(hashlib.sha1("\0".join(t for _, t in files).encode("utf-8", "replace")).hexdigest()[:16])
             if i < 3:
                 res["samples"].append({"how": how, "outcome": info["cls"], "text": files[0][1][:300]})
+        # one planted fault of each catalogue kind in an otherwise valid program (1-2 files): the ONLY thing wrong with the input is
+        # that fault, so the only diagnostics are its own; the run must fail and say why, through whichever handler and -W table
+        from vlib import clicase, faults
+        kinds = list(faults.KINDS)
+        rnd.shuffle(kinds)
+        for j, kind in enumerate(kinds[:max(6, spec["count"] // 12)] if spec["tier"] == "quick" else kinds * 3):
+            try:
+                host = clicase.build_host(rnd, nfiles=rnd.choice([1, 2]), include=False, nstmt=rnd.randrange(2, 8))
+            except RuntimeError:
+                continue
+            clicase.plant(host, rnd, faults.render(kind, rnd.choice(["\t", "  ", ""])), where=rnd.choice(host["linked"]))
+            files = [[os.path.join(root, n), "\n".join(host["texts"][n]) + "\n"] for n in host["linked"]]
+            case = {"files": files, "handler": rnd.choice(["bare", "graphical", "record"]), "cli": False, "root": root,
+                    "wctl": rnd.choice(["everything", "default", "nothing", "ids-off"]), "wseed": rnd.randrange(1 << 30), "planted": kind}
+            vs, info = run_one(case, cnt)
+            if info["cls"] == "ok":
+                vs.append({"what": f"a program whose only defect is the planted fault '{kind}' assembled successfully", "case": case})
+            res["violations"].extend(vs)
+            res["evaluations"] += 1
+            cnt["single_fault_programs"] = cnt.get("single_fault_programs", 0) + 1
+            cnt[info["cls"]] += 1
+            res["sets"]["how"].append("planted")
+            res["sets"]["diag_ids"].extend(info["ids"])
         cnt["max_steps"] = 0
         res["sets"]["max_steps_seen"] = [max_steps]
     finally:
